@@ -6,7 +6,7 @@ AST (JSON-able lists):
   ["bin", op, l, r]                binary operator by operator-module name
   ["un", op, a]                    neg | inv | nz (truth) | len
   ["idx", a, i]                    a[i]
-  ["slice", a, lo, hi]             a[lo:hi]   (lo/hi int or None)
+  ["slice", a, lo, hi(, step)]     a[lo:hi:step]   (constants or None)
   ["ch", a, ["list", [e..]] | ["dict", [[k, e]..]], form]     chooses; form in list|dict|pos|kw
   ["ite", c, t, e, form]           if_true_then_else; form in list|pos
   ["attr", a, name]                a.name        (lambda form only; nested packets)
@@ -96,7 +96,9 @@ def render(e, lam):
     if t == "idx":
         return "%s[%s]" % (render(e[1], lam), render(e[2], lam))
     if t == "slice":
-        return "%s[%s:%s]" % (render(e[1], lam), "" if e[2] is None else e[2], "" if e[3] is None else e[3])
+        step = e[4] if len(e) > 4 else None
+        return "%s[%s:%s%s]" % (render(e[1], lam), "" if e[2] is None else e[2], "" if e[3] is None else e[3],
+                                "" if step is None else ":%d" % step)
     if t == "attr":
         assert lam
         return "%s.%s" % (render(e[1], lam), e[2])
@@ -107,20 +109,21 @@ def render(e, lam):
         if kind == "list":
             xs = [render(x, lam) for x in items]
             if lam:
-                return "[%s][%s]" % (", ".join(xs), a)
+                # key first, then every option (the order of the deferred form), eagerly
+                return "(lambda _k, _o: _o[_k])(%s, [%s])" % (a, ", ".join(xs))
             if form == "pos" and len(xs) >= 2:
                 return "%s.chooses(%s)" % (a, ", ".join(xs))
             return "%s.chooses([%s])" % (a, ", ".join(xs))
         else:
             if lam:
-                return "{%s}[%s]" % (", ".join("%r: %s" % (k, render(v, lam)) for k, v in items), a)
+                return "(lambda _k, _o: _o[_k])(%s, {%s})" % (a, ", ".join("%r: %s" % (k, render(v, lam)) for k, v in items))
             if form == "kw":
                 return "%s.chooses(%s)" % (a, ", ".join("%s=%s" % (k.decode("ascii"), render(v, lam)) for k, v in items))
             return "%s.chooses({%s})" % (a, ", ".join("%r: %s" % (k, render(v, lam)) for k, v in items))
     if t == "ite":
         c, x, y = render(e[1], lam), render(e[2], lam), render(e[3], lam)
         if lam:
-            return "(%s if bool(%s) else %s)" % (x, c, y)
+            return "(lambda _c, _x, _y: _x if bool(_c) else _y)(%s, %s, %s)" % (c, x, y)
         if e[4] == "pos":
             return "%s.if_true_then_else(%s, %s)" % (c, x, y)
         return "%s.if_true_then_else([%s, %s])" % (c, x, y)
@@ -162,7 +165,7 @@ def evaluate(e, env):
         i = evaluate(e[2], env)
         return a[i]
     if t == "slice":
-        return evaluate(e[1], env)[e[2]:e[3]]
+        return evaluate(e[1], env)[e[2]:e[3]:(e[4] if len(e) > 4 else None)]
     if t == "attr":
         a = evaluate(e[1], env)
         return a[e[2]]
